@@ -2,6 +2,7 @@ mod c04;
 mod coqfmt;
 mod cw1;
 mod cw20;
+mod cw3;
 mod cw4;
 mod world;
 mod rng;
@@ -35,6 +36,7 @@ fn main() {
         "cw20" => run_cw20(mode, seed, count, &out, shard_size, &args),
         "cw1" => run_cw1(mode, seed, count, &out, shard_size, &args),
         "cw4" => run_cw4(mode, seed, count, &out, shard_size, &args),
+        "cw3" => run_cw3(mode, seed, count, &out, shard_size, &args),
         _ => {
             eprintln!("unknown family {}", family);
             std::process::exit(2);
@@ -173,6 +175,38 @@ fn run_cw4(mode: &str, seed: u64, count: usize, out: &PathBuf, shard_size: usize
     let stats = serde_json::json!({
         "family": "cw4", "mode": mode, "seed": seed, "cases": rans.len(), "steps": steps,
         "shards": names, "classes": classes, "evals": ["C09", "C10", "C14"],
+    });
+    fs::write(out.join("stats.json"), serde_json::to_string_pretty(&stats).unwrap()).unwrap();
+    println!("{} traces, {} steps, {} shards, {} classes", rans.len(), steps, names.len(), classes.len());
+}
+
+fn run_cw3(mode: &str, seed: u64, count: usize, out: &PathBuf, shard_size: usize, args: &[String]) {
+    let max_steps: usize = arg(args, "--steps").and_then(|s| s.parse().ok()).unwrap_or(30);
+    let rans: Vec<cw3::Ran> = match mode {
+        "gen" => (0..count as u64).map(|c| cw3::generate(seed, c, max_steps)).collect(),
+        "replay" => {
+            let f = arg(args, "--file").expect("--file");
+            let text = fs::read_to_string(f).unwrap();
+            text.lines()
+                .filter(|l| l.trim_start().starts_with('{'))
+                .map(|l| cw3::replay(&serde_json::from_str::<cw3::Trace>(l).unwrap()))
+                .collect()
+        }
+        _ => panic!("mode"),
+    };
+    let items: Vec<String> = rans.iter().map(cw3::to_coq).collect();
+    let fns: Vec<String> = ["3", "5", "6", "15"].iter().map(|p| format!("check_traces {}", p)).collect();
+    let names = shard::write_list_shards(out, "cw3", cw3::COQ_HEADER, "trace", &fns, &items, shard_size);
+    let mut jf = fs::File::create(out.join("cases.jsonl")).unwrap();
+    let mut steps = 0usize;
+    for r in &rans {
+        writeln!(jf, "{}", serde_json::to_string(&r.trace).unwrap()).unwrap();
+        steps += r.nsteps;
+    }
+    let classes = cw3::class_counts(&rans);
+    let stats = serde_json::json!({
+        "family": "cw3", "mode": mode, "seed": seed, "cases": rans.len(), "steps": steps,
+        "shards": names, "classes": classes, "evals": ["C03", "C05", "C06", "C15"],
     });
     fs::write(out.join("stats.json"), serde_json::to_string_pretty(&stats).unwrap()).unwrap();
     println!("{} traces, {} steps, {} shards, {} classes", rans.len(), steps, names.len(), classes.len());
